@@ -573,6 +573,10 @@ func main() {
 	if gen.Thorough() {
 		nF, nT = 3000, 400
 	}
+	if len(os.Args) > 1 && os.Args[1] == "d30" {
+		scenarioD30()
+		return
+	}
 	if len(os.Args) > 1 && os.Args[1] == "dataplane" {
 		for i := 0; i < 6; i++ {
 			dataPlaneScenario(rng, 2+rng.Intn(3))
@@ -585,6 +589,7 @@ func main() {
 	}
 	fCases(rng, nF)
 	scenarioD8Reader()
+	scenarioD30()
 	for i := 0; i < nT; i++ {
 		topics := [][]string{{"t"}, {"t", "u"}, {"a", "b", "c"}}[rng.Intn(3)]
 		s := newScen(rng, topics, rng.Intn(2) == 0, []int{0, 10, 20}[rng.Intn(3)])
